@@ -1,0 +1,12 @@
+//go:build verif
+
+// Contracts for the verification engine in /verif (comment-only file; it is
+// compiled only with the build tag "verif" and contains no code).
+
+package pbSubProto
+
+// C12: a frame naming an unregistered transfer filter is refused
+//@ func (*pbSubProto).Unpack
+//@   property C12
+//@   requires[no-pending-refusal] !ghost.appendFailed
+//@   ensures[refusal-propagated] result == nil ==> !ghost.appendFailed
